@@ -5,8 +5,9 @@ G: TLC generates insert/remove histories over a sorted-map model (spec/NameTreeG
    with the expected map and operation result after every step.
 R: harness/cmd/c39 replays every history on the real model.Node (Add without and with name references = unique
    renaming, Remove, Value, Process/KeyList), starting from the empty tree and from multi-level trees that the real
-   reader internalised from generated documents, and projects the real tree after every step.  A sample of the
-   histories also runs inside a real document context followed by WriteContext + re-read.
+   reader internalised from generated documents, and projects the real tree after every step.  Histories also run
+   inside a real document context: a "sync" op at any point of the history persists the document (WriteContext +
+   strict re-read) and the history continues on the re-read tree; the document is persisted once more at the end.
 V: TLC judges every distinct projection with the structural invariants of NameTree.tla (keys sorted and unique,
    limits = min/max of the keys below, kids ordered and disjoint, node shapes, agreement with the expected map,
    lookups, operation result, re-read tree = written tree)."""
@@ -18,7 +19,8 @@ META = {
     "text": "TLC enumerates all insert/remove histories of length <= 5 over 5 names (duplicates included) plus short histories on "
             "multi-level trees and long simulated histories with adversarial insert orders, each with the expected sorted map per step; "
             "every history is replayed on the real name tree and TLC judges the projected real tree after every step (sortedness, "
-            "uniqueness, limits, kid ranges, lookups, results) and after write + re-read.",
+            "uniqueness, limits, kid ranges, lookups, results) and after every write + re-read, which histories interleave with the edits "
+            "at arbitrary points (persist, reload, keep editing the reloaded tree, persist again).",
     "note": "Trusted: NameTree.tla's sorted-map semantics (an existing name is kept; with name references a duplicate gets the first free "
             "0x01-suffixed variant, which is what the code documents), the Go projection (keys via Node.Process, limits via the exported "
             "fields), rawpdf documents for the initial trees, go1.26.8.",
@@ -30,12 +32,13 @@ META = {
 # simulation checks (and so prints) every successor of the last state of a trace: histories ~ 30 x traces
 QUICK = [("NameTreeGen_quick.cfg", 5, 150, None, 6, 8),
          ("NameTreeGen_multi.cfg", 5, 1, None, 3, 4),
-         ("NameTreeGen_leaf.cfg", 5, 1, None, 4, 4),
+         ("NameTreeGen_leaf.cfg", 3, 1, None, 4, 4),
          ("NameTreeGen_simq.cfg", 8, 4, "num=6", 25, 2)]
 THOROUGH = [("NameTreeGen_quick.cfg", 5, 40, None, 6, 8),
             ("NameTreeGen_all4.cfg", 5, 40, None, 5, 8),
-            ("NameTreeGen_multi3.cfg", 4, 10, None, 4, 8),
-            ("NameTreeGen_leaf.cfg", 5, 1, None, 4, 4),
+            ("NameTreeGen_multi3.cfg", 4, 4, None, 4, 8),
+            ("NameTreeGen_leaf.cfg", 3, 1, None, 4, 4),
+            ("NameTreeGen_leaf4.cfg", 4, 3, None, 5, 8),
             ("NameTreeGen_sim.cfg", 12, 3, "num=90", 61, 4)]
 
 
@@ -178,8 +181,8 @@ def run(ctx):
                         break
         ev.cov(evaluations=tot_steps, distinct_nontrivial=len(nontrivial), traces_validated_against_impl=tot_cases,
                rule="every complete history of the exhaustive cfgs (NameTreeGen_quick: all sequences of 5 ops from {insert-unique, remove} x 5 names "
-                    "and the renamed variants present, from the empty tree; _multi/_multi3/_leaf/_all4: all op kinds, from multi-level trees / a single-leaf tree / "
-                    "the empty tree) and every simulated history (_sim/_simq: long histories, insert order random/ascending/descending/zig-zag, all initial "
+                    "and the renamed variants present, from the empty tree; _multi/_multi3/_leaf/_leaf4/_all4: all op kinds incl. persist+reload (\"sync\") at any point, from multi-level trees / "
+                    "a single-leaf tree / a freshly split tree / the empty tree) and every simulated history (_sim/_simq: long histories, insert order random/ascending/descending/zig-zag, all initial "
                     "trees) is replayed on the real tree; evaluations = (history, step) observations; each distinct projection is judged by TLC; "
                     "non-trivial = distinct projected trees with at least two leaves",
                exhaustive=True, histories=tot_cases, distinct_projections=tot_records, doc_histories_written_and_reread=tot_doc,
@@ -189,6 +192,8 @@ def run(ctx):
                   "name gets the first free 0x01-suffixed variant",
                   "key names contain no bytes <= 0x01 other than the rename suffix; the empty name is not used",
                   "only the first failing observation of a history is reported (later ones are consequences)",
+                  "persisting (\"sync\") is the identity on the abstract map; the generated documents validate in strict mode and every re-read "
+                  "is validated in strict mode; values added in a session are direct destination arrays",
                   "exhaustive refers to the bounded histories of the exhaustive cfgs; the simulated histories are a seeded sample")
     finally:
         pool.shutdown(wait=True)
